@@ -211,7 +211,7 @@ def run(ctx):
     envs = [({"GOGC": "1"}, 25), ({"GOGC": "1", "GODEBUG": "gccheckmark=1"}, 8), ({"GOGC": "1", "SONIC_SYNC_GC": "1"}, 2),
             ({"GOGC": "1", "GOMAXPROCS": "8", "GODEBUG": "clobberfree=1"}, 15)]
     if thorough:
-        envs = [(e, k * 12) for e, k in envs]
+        envs = [(envs[0][0], 300), (envs[1][0], 60), (envs[2][0], 6), (envs[3][0], 150)]
     if found:
         envs = []   # a concrete failing input already exists: the stress sampling would add nothing (and may hang on broken tables)
     for env, k in envs:
